@@ -57,10 +57,16 @@ func (n *node) writeKey(k *kbuf, pass2 bool) {
 	k.u(n.hs.Term)
 	k.u(n.hs.Vote)
 	k.u(n.hs.Commit)
+	// storage compaction state: where the log starts (first index), the snapshot it starts
+	// from (index, term, configuration, payload). Two nodes that hold the same entries but
+	// have compacted differently answer MsgApp / MsgSnap / vote requests differently (term()
+	// of a compacted index is unknown), so all of it is part of the key.
+	k.u(n.firstIdx)
 	k.u(n.snapIdx)
 	k.u(n.snapTrm)
 	if n.snapIdx > 0 {
 		k.conf(&n.snapConf)
+		k.bs(n.snapData)
 	}
 	k.u(uint64(len(n.log)))
 	for i := range n.log {
@@ -90,6 +96,7 @@ func (n *node) writeKey(k *kbuf, pass2 bool) {
 	k.bo(st.Config.AutoLeave)
 	k.conf(&n.confState)
 	k.u(n.appliedIdx)
+	k.b = append(k.b, n.appDigest[:]...)
 	if st.RaftState == raft.StateLeader {
 		ids := make([]uint64, 0, len(st.Progress))
 		for id := range st.Progress {
@@ -149,6 +156,20 @@ func (c *cluster) key() (uint64, []byte) {
 			k.bs(e)
 		}
 	}
+	// delayed messages: a set (release picks any of them), canonical order = by content
+	k.u(uint64(len(c.held)))
+	if len(c.held) == 1 {
+		k.bs(c.held[0].enc)
+	} else if len(c.held) > 1 {
+		encs := make([][]byte, len(c.held))
+		for i := range c.held {
+			encs[i] = c.held[i].enc
+		}
+		sort.Slice(encs, func(i, j int) bool { return bytes.Compare(encs[i], encs[j]) < 0 })
+		for _, e := range encs {
+			k.bs(e)
+		}
+	}
 	// history variables
 	k.u(uint64(len(c.leaderOf)))
 	for _, l := range c.leaderOf {
@@ -166,7 +187,7 @@ func (c *cluster) key() (uint64, []byte) {
 	u := &c.used
 	k.b = append(k.b, c.iso)
 	body := len(k.b)
-	k.b = append(k.b, u.Proposals, u.Drops, u.Dups, u.Crashes, u.Heartbeats, u.Compacts, u.ConfChanges, u.Transfers, u.Expires)
+	k.b = append(k.b, u.Proposals, u.Drops, u.Dups, u.Crashes, u.Heartbeats, u.Compacts, u.ConfChanges, u.Transfers, u.Expires, u.Delays)
 	sum := sha1.Sum(k.b)
 	return binary.LittleEndian.Uint64(sum[:8]), k.b[:body]
 }
